@@ -70,7 +70,7 @@ def run_verus_unit(unit, tier, rlimit=None):
         res["undecided"] = f"extract: {e}"; return res
     except Exception as e:  # overlay bug
         res["undecided"] = f"assemble-error: {type(e).__name__}: {e}"; return res
-    path = os.path.join(BUILD, unit + ".rs")
+    path = os.path.join(BUILD, unit + os.environ.get("VERIF_BUILD_SUFFIX", "") + ".rs")
     open(path, "w").write(a["text"])
     res["rewrites"] = [dict(rule=r, where=w, what=x[:160]) for (r, w, x) in a["log"]]
     res["functions"] = a["functions"]
@@ -207,6 +207,39 @@ def write_replay(prop, f, witness):
     return path
 
 
+def self_tests(units):
+    """thorough tier: apply each unit's deliberate breaks (units/<unit>.breaks: file TAB sed-expression TAB description) to a
+    scratch copy of the sources (outside /repo and /verif, removed afterwards) and require the unit to turn red."""
+    import shutil, tempfile
+    out = []
+    for u in units:
+        bf = os.path.join(VERIF, "units", u + ".breaks")
+        if not os.path.exists(bf): continue
+        for ln in open(bf):
+            ln = ln.rstrip("\n")
+            if not ln.strip() or ln.startswith("#"): continue
+            rel, sedexpr, desc = ln.split("\t")
+            scratch = tempfile.mkdtemp(prefix="verif_selftest_")
+            try:
+                dst = os.path.join(scratch, "src")
+                shutil.copytree(os.path.join("/repo/oxidize-pdf-core/src"), dst)
+                before = open(os.path.join(dst, rel), "rb").read()
+                subprocess.run(["sed", "-i", sedexpr, os.path.join(dst, rel)], check=True)
+                if open(os.path.join(dst, rel), "rb").read() == before:
+                    out.append(dict(unit=u, change=desc, result="break-did-not-apply")); continue
+                env = dict(os.environ); env["VERIF_REPO_SRC"] = dst; env["VERIF_BUILD_SUFFIX"] = "_selftest"
+                p = subprocess.run([sys.executable, os.path.join(HERE, "check.py"), "--unit", u], capture_output=True, text=True, env=env, timeout=1200)
+                last = [l for l in p.stdout.split("\n") if l.startswith("unit ")][-1:] or [""]
+                m = re.search(r"(\d+) failures", last[0])
+                und = "UNDECIDED" in p.stdout
+                res = "detected" if (m and int(m.group(1)) > 0 and not und) else ("undecided" if und else "MISSED")
+                obl = [l for l in p.stdout.split("\n") if l.startswith("error")][:2]
+                out.append(dict(unit=u, change=desc, result=res, failing=obl))
+            finally:
+                shutil.rmtree(scratch, ignore_errors=True)
+    return out
+
+
 def decide(prop, tier, seed):
     t0 = time.time()
     cfg = registry.PROPS[prop]
@@ -272,6 +305,10 @@ def decide(prop, tier, seed):
     elif undecided:
         for u in undecided: out_lines.append(f"UNDECIDED property={prop} {u}")
         exit_code = 2
+    st = self_tests(units) if tier == "thorough" else []
+    for t in st:
+        if t["result"] != "detected":
+            out_lines.append(f"SELF-TEST {t['result']}: unit {t['unit']}: {t['change']}")
     # ---- evidence
     trusted = sorted({a for r in results for a in r.get("assumptions", [])})
     fnlist = [f"{f['file']}:{f['line']} {f['path']}" + (" (block)" if f.get("kind") == "block" else "")
@@ -294,6 +331,7 @@ def decide(prop, tier, seed):
             known_finding_obligations=[dict(id=k["id"], obligation=f"{f['unit']}::{f['function']}: {f['message']}") for (k, f) in knowns],
             stand_ins=[{k: v for k, v in s.items() if k != "failures"} for s in stand],
             not_decided=cfg.get("not_decided", ""),
+            deliberate_break_self_tests=st,
             samples=samples, exhaustive=False,
         ),
         assumptions=list(registry.COMMON_ASSUMPTIONS) + list(cfg.get("assumptions", [])),
